@@ -52,4 +52,4 @@ if confirmed:
     shutil.copy(demo, os.path.join(out, "demo.rs"))
     log["demo_with_patch"]["tail"] = log["demo_with_patch"]["tail"][-600:]
     json.dump(log, open(os.path.join(out, "meta.json"), "w"), indent=1)
-print(sid, "CONFIRMED" if confirmed else "REJECTED", log["suite_with_patch"], m1.group(0) if m1 else o1[-300:], "|", m2.group(0) if m2 else o2[-300:])
+print(sid, "CONFIRMED" if confirmed else "REJECTED", "suite:", log["suite_with_patch"]["passed"], "passed", log["suite_with_patch"]["failed"], "failed |", m1.group(0) if m1 else o1[-300:], "|", m2.group(0) if m2 else o2[-300:])
